@@ -19,10 +19,14 @@ Lemma terminates_refuted : exists (p : prog) (en : entry) (sigres : list rdecl),
 Proof. exists prog_rec, (EnBody 0), [rd_int; rd_err]. exact (rec_diverges unfixed eq_refl). Qed.
 
 Lemma shape_fixed : forall (p : prog) (fuel : nat) (en : entry) (sigres : list rdecl) ls n,
-    en <> EnOther -> (forall f, en = EnBody f -> f < length p) ->
+    (forall f, en = EnBody f -> f < length p) ->
     results_of all_fixed p fuel en sigres = Ok (ls, n) ->
     n = length sigres /\ length ls = n /\ Forall (fun l => l <> []) ls.
-Proof. intros p fuel en sigres ls n. exact (results_of_shape all_fixed p fuel en sigres ls n eq_refl). Qed.
+Proof. intros p fuel en sigres ls n. exact (results_of_shape all_fixed p fuel en sigres ls n eq_refl eq_refl). Qed.
+
+Lemma shape_refuted_other : forall (p : prog) (fuel : nat) (sigres : list rdecl),
+    sigres <> [] -> results_of unfixed p fuel EnOther sigres = Ok ([], length sigres) /\ 0 < length sigres.
+Proof. intros p fuel sigres. exact (other_unfixed_loses unfixed p fuel sigres eq_refl). Qed.
 
 Lemma shape_refuted : forall (p : prog) (fuel : nat) (fo : option nat) (sigres : list rdecl) ls n,
     sigres <> [] -> results_of unfixed p fuel (EnSelector fo) sigres = Ok (ls, n) ->
